@@ -248,7 +248,10 @@ Definition handle_wrap (rq : request_model) (request_id : str) : res panic respo
   end.
 
 (* a server handling a sequence of requests: the k-th call of
-   generate_request_id() returns [fresh k] *)
+   generate_request_id() returns [fresh k].  The id is a function of the call
+   count alone: generate_request_id() takes no argument, so nothing the client
+   sends (in particular an x-request-id REQUEST header) can influence it —
+   [fresh] is not given the request. *)
 Fixpoint serve (fresh : nat -> str) (k : nat) (rqs : list request_model)
   : list (res panic response) :=
   match rqs with
